@@ -87,7 +87,7 @@ CHECKS = {
  "C09": dict(
    category="model_checking",
    technique="explicit-state exploration of all import/reference/declare/discard/force/switch-file/write histories up to a length bound on the real package, against a reference model of per-file reference sets; oracle = go/types name resolution on the emitted files",
-   text="All histories of length <=5 over a 19-operation alphabet on a two-file package (2.39M histories, 10.4k distinct model states, 11.8M replayed transitions); thorough adds all histories of length <=4 over the 34-operation alphabet. After each history every file is written twice; import specs must equal referenced ∪ forced, local names must be unique and differ from package-level identifiers, every planted reference must resolve (Info.Uses) to the intended path, the package must type-check, the second write must be byte-identical. Write is itself an operation, so name fixing and dirty-flag handling are explored in every position.",
+   text="All histories of length <=5 over a 21-operation alphabet on a two-file package (3.98M histories, 10.5k distinct model states, 19.7M replayed transitions); thorough adds all histories of length <=4 over the 40-operation alphabet (6.3M histories, 21.1k model states, 28.9M transitions). After each history every file is written twice; import specs must equal referenced ∪ forced, local names must be unique and differ from package-level identifiers, every planted reference must resolve (Info.Uses) to the intended path, the package must type-check, the second write must be byte-identical. Write is itself an operation, so name fixing and dirty-flag handling are explored in every position.",
    note="Trusted: go/types 1.23.5; the reference model of the history; histories the builder rejects (redeclarations) are pruned.",
    design="§4 C09"),
  "C15": dict(
